@@ -2686,10 +2686,13 @@ The what argument tells us what sort of state is expected (allowed values are de
             if not self.noaction:
                 eupsDirs = [eupsPathDirForRead, eupsPathDir]
                 #
-                # Delete all old occurrences of this tag
+                # Delete all old occurrences of this tag.  Look in each stack separately: findProducts()
+                # merges products with the same name, version and flavor that live in different stacks,
+                # which left the tag assigned in all but the first such stack
                 #
-                for p in self.findProducts(productName, None, tag):
-                    self.unassignTag(tag[0], productName, None, p.stackRoot(), eupsPathDir)
+                for root in self.path:
+                    if self.findTaggedProduct(productName, tag[0], root) is not None:
+                        self.unassignTag(tag[0], productName, None, root, eupsPathDir)
                 #
                 # And set it in the Proper Place
                 #
